@@ -147,7 +147,7 @@ def generate(rng, seed, index, tier):
                 op["faults"] = [{"dev": "eval", "comp": str(rng.choice(["obj", "grad", "hess"])), "at": int(rng.integers(2, 30)), "kind": "nan"}]
         hist.append(op)
         last = op
-    w = gen.base_world(seed, ID, index, None, [], [], {}, case={"problems": problems, "params_list": plist, "history": hist})
+    w = gen.base_world(seed, ID, index, None, [], [], {}, case={"problems": problems, "params_list": plist, "history": hist, "reuse_buffers": bool(rng.random() < 0.3)})
     return w
 
 
@@ -220,6 +220,7 @@ def case(world):
     viol, keys = [], []
     execs = len(twins)
     prev_dig = "start"
+    start_bufs = {}
     kept = []
     prev_by_solver = {}
     i = -1
@@ -266,7 +267,16 @@ def case(world):
             bump("ops.reused_solver")
             if w["params_default"]:
                 bump("ops.default_params")
-            ex = execute(w, problem=prob, solver=solvers[sid])
+            bufs = None
+            if c.get("reuse_buffers") and d.get("kind") != "integration":
+                # the caller keeps one pair of start arrays per solver and overwrites them in place
+                import numpy as np
+
+                if sid not in start_bufs:
+                    start_bufs[sid] = (np.zeros(len(op["x0"])), np.zeros(len(op["y0"])))
+                bufs = start_bufs[sid]
+                bump("ops.reused_start_buffers")
+            ex = execute(w, problem=prob, solver=solvers[sid], start_buffers=bufs)
         execs += 1
         tw = twins[i]
         dig = ex.traj_digest()
